@@ -37,6 +37,8 @@ type World struct {
 	strLits   map[string]int
 	wkCache   map[*ssa.Function]map[string]bool
 	allFuncs  map[*ssa.Function]bool
+	entryStates []int64 // scanner entry states (E-SCAN), computed on demand
+	restStates  []int64 // scanner states without an end-of-input action
 }
 
 func loadWorld(patterns ...string) (*World, error) {
